@@ -380,7 +380,9 @@ func TestWorker(t *testing.T) {
 			return
 		}
 		savedTransport := http.DefaultTransport
-		http.DefaultTransport = &simTransport{k: k, world: w}
+		st := &simTransport{k: k, world: w}
+		http.DefaultTransport = st
+		k.clientHook = st.wrapClient
 		simrt.H = k.hooks()
 		if k.mode == "race" {
 			if err := k.runRace(w.runTask); err != nil {
@@ -476,6 +478,9 @@ func TestWorker(t *testing.T) {
 	out.SchedFP = strconv.FormatUint(k.fp, 16) + ":" + strconv.FormatInt(k.fpN, 10)
 	if fsSeamUsed {
 		out.Probes["fs_seam_used"] = 1
+	}
+	if k.clientsWrapped > 0 {
+		out.Probes["own_http_transport_rerouted"] = k.clientsWrapped
 	}
 	if ep := os.Getenv("VERIF_EVENTLOG"); ep != "" {
 		var sb strings.Builder
